@@ -32,6 +32,7 @@ type Op struct {
 	Twice   bool   `json:"twice,omitempty"`   // update: broadcast(); getWaitCh(); broadcast() inside one critical section
 	Panic   bool   `json:"panic,omitempty"`   // update: the callback panics after its broadcast (the caller recovers)
 	Pick    int    `json:"pick,omitempty"`
+	NilPred bool   `json:"nilpred,omitempty"` // wait: no predicate at all (documented: an error, never nil)
 	PredAct bool   `json:"predact,omitempty"` // wait: the predicate's first evaluation takes the wait channel, broadcasts and takes it again
 }
 
@@ -58,6 +59,7 @@ func genCase(t *rapid.T) Case {
 			}
 			op.Pre = rapid.IntRange(0, 11).Draw(t, "pre") == 0
 			op.PredAct = rapid.IntRange(0, 4).Draw(t, "predact") == 0
+			op.NilPred = rapid.IntRange(0, 11).Draw(t, "nilpred") == 0
 			if rapid.IntRange(0, 5).Draw(t, "hasdl") == 0 {
 				op.Dl = rapid.IntRange(1, 3).Draw(t, "dl")
 			}
@@ -236,6 +238,17 @@ func body(c *sched.Ctl, cs Case, v *ev.Verdict) {
 				w.cancelled = true
 			}
 			c.Go(w.label, func() {
+				if w.op.NilPred {
+					// no predicate can have returned true: whatever Wait does, it does not return nil
+					err := b.Wait(ctx, nil)
+					hm.Lock()
+					w.returned, w.err = true, err
+					hm.Unlock()
+					if err == nil {
+						fail("broadcast:nil-without-true", "Wait #%d was given no predicate and returned nil", w.id)
+					}
+					return
+				}
 				err := b.Wait(ctx, func(broadcast func(), getWaitCh func() <-chan struct{}) (bool, error) {
 					w.evals++
 					w.lastTrue, w.lastErr = false, nil
